@@ -248,7 +248,7 @@ def run_shard(ctx):
             ctx.event("random_object_listings_used")
             r = (None, out)
         else:
-            lines = [asmgen.template(rng, bits) for _ in range(120)]
+            lines = [asmgen.template(rng, bits) for _ in range(120)] + (list(asmgen.STACKED_DATA16) if bits == 64 else [])
             r = asmgen.assemble(ws, lines, bits)
         if r is None:
             ctx.inconc("as refused a template batch")
@@ -262,7 +262,13 @@ def run_shard(ctx):
                    and all(x is not None for o, x in zip(ri.ops_att, ri.ops_norm) if not refline.RE_MEM2.match(o))]
         for ri in two_reg:
             ctx.event("two_register_16_bit_operands_seen")
-        rinsts = [ri for ri in rinsts if ri.plain and ri.ops_att] + two_reg
+        # lines that carry nothing but operand-size prefixes in front of the mnemonic (long NOPs: `data16 data16 nopw 0x0(%rax,%rax,1)`): the
+        # memory operand is an operand like any other
+        d16 = [ri for ri in rinsts if ri.parsed.prefixes and all(x == "data16" for x in ri.parsed.prefixes) and ri.ops_att and ri.parsed.mnemonic.isalnum()
+               and all(x is not None for x in ri.ops_norm)]
+        for ri in d16:
+            ctx.event("data16_prefixed_memory_operand_lines_seen")
+        rinsts = d16 + [ri for ri in rinsts if ri.plain and ri.ops_att] + two_reg
         # operands with a segment override carry an extra component: a $deref built from the part after the override must not match
         for ri, p, o in segs[:6]:
             inner = o.split(":", 1)[1]
